@@ -332,7 +332,16 @@ func cmdCheck(argv []string) int {
 
 	runs := spec.Quick
 	if tier == "thorough" {
-		runs = spec.Thorough
+		// the quick runs first (so that a time cap drops the deepest runs only), then the deeper ones
+		seenRun := map[string]bool{}
+		runs = nil
+		for _, r := range append(append([]RunSpec{}, spec.Quick...), spec.Thorough...) {
+			k := fmt.Sprintf("%s%v", r.Harness, r.Args)
+			if !seenRun[k] {
+				seenRun[k] = true
+				runs = append(runs, r)
+			}
+		}
 	}
 	{
 		names := map[string]bool{}
@@ -359,7 +368,24 @@ func cmdCheck(argv []string) int {
 	validated, validateFail := 0, 0
 	var validateMsgs []string
 	inconclusive := 0
+	// wall-clock cap: once reached, the run in progress stops taking new paths and the
+	// remaining runs are skipped; the verdict then covers what was explored (reported)
+	capS := 900
+	if tier == "thorough" {
+		capS = 3000
+	}
+	if v, err := strconv.Atoi(os.Getenv("VERIF_TIME_CAP_S")); err == nil && v > 0 {
+		capS = v
+	}
+	deadline := t0.Add(time.Duration(capS) * time.Second)
+	var skippedRuns []string
+	timeCapped := false
 	for _, rs := range runs {
+		if time.Now().After(deadline) {
+			timeCapped = true
+			skippedRuns = append(skippedRuns, fmt.Sprintf("%s%v", rs.Harness, rs.Args))
+			continue
+		}
 		fn := e.funcByName(harnessModule + "/h." + rs.Harness)
 		if spec.CLI {
 			fn = e.funcByName(repoModule + "/cmd/pql." + rs.Harness)
@@ -371,7 +397,7 @@ func cmdCheck(argv []string) int {
 		if budget == 0 {
 			budget = 400000
 		}
-		h := &HarnessRun{Name: rs.Harness, Fn: fn, Args: rs.Args, Budget: budget, SampleK: sampleK, MaxPaths: rs.MaxPaths}
+		h := &HarnessRun{Name: rs.Harness, Fn: fn, Args: rs.Args, Budget: budget, SampleK: sampleK, MaxPaths: rs.MaxPaths, Deadline: deadline}
 		st := e.explore(h, *workers)
 		for round := 0; round < 6; round++ {
 			// a shared location was seen written for the first time: accesses to it are
@@ -383,7 +409,7 @@ func cmdCheck(argv []string) int {
 			if !grew || !spec.Threads {
 				break
 			}
-			h = &HarnessRun{Name: rs.Harness, Fn: fn, Args: rs.Args, Budget: budget, SampleK: sampleK, MaxPaths: rs.MaxPaths}
+			h = &HarnessRun{Name: rs.Harness, Fn: fn, Args: rs.Args, Budget: budget, SampleK: sampleK, MaxPaths: rs.MaxPaths, Deadline: deadline}
 			st = e.explore(h, *workers)
 		}
 		inconclusive += h.inconclusive
@@ -395,6 +421,10 @@ func cmdCheck(argv []string) int {
 		total.Concretized += st.Concretized
 		total.Solver.add(st.Solver)
 		total.Truncated = total.Truncated || st.Truncated
+		if st.TimedOut {
+			timeCapped = true
+			skippedRuns = append(skippedRuns, fmt.Sprintf("%s%v (partly explored)", rs.Harness, rs.Args))
+		}
 		for k, v := range st.Outcomes {
 			total.Outcomes[k] += v
 		}
@@ -616,6 +646,8 @@ func cmdCheck(argv []string) int {
 		"path_outcomes":                 total.Outcomes,
 		"ssa_instructions_executed":     total.Steps,
 		"solver":                        map[string]any{"name": e.solverKind, "queries": total.Solver.Queries, "sat": total.Solver.Sat, "unsat": total.Solver.Unsat, "unknown": total.Solver.Unknown, "errors": total.Solver.Errors, "cache_hits": total.Solver.CacheHit, "wall_s": round3(total.Solver.Wall.Seconds())},
+		"tier_composition":              "thorough = the quick tier's runs followed by the deeper thorough runs",
+		"time_cap":                      map[string]any{"seconds": capS, "reached": timeCapped, "runs_not_or_partly_explored": limitStrings(skippedRuns, 40)},
 		"inconclusive":                  inconclusive,
 		"tainted_paths":                 total.Tainted,
 		"concretisations":               total.Concretized,
@@ -673,7 +705,10 @@ func cmdCheck(argv []string) int {
 			return 2
 		}
 	}
-	if len(missing) > 0 && exit == 0 {
+	if timeCapped {
+		fmt.Printf("NOTE: property=%s time cap of %d s reached: %d runs not or only partly explored (verdict covers what was explored; VERIF_TIME_CAP_S raises the cap)\n", id, capS, len(skippedRuns))
+	}
+	if len(missing) > 0 && exit == 0 && !timeCapped {
 		fmt.Printf("BROKEN: property=%s vacuous run, cover labels not reached: %v\n", id, missing)
 		return 2
 	}
